@@ -208,6 +208,59 @@ def rand_pair(rng, reject=False):
             'want_m': [m_nm, sorted([sorted(k), o] for k, o in intended_edges(m_ch, m_od, m_rg).items())]}
 
 
+def rand_reuse_pair(rng):
+    """ring INDEX re-use (seed C11-8): a zero-order ring bond - between two real nodes, from a new virtual first node, or to a
+    new virtual leaf - whose ring is closed before an ordinary ring of the base string opens; render_base hands out the lowest
+    free index, so the ordinary ring gets the index the zero-order ring bond just gave back (digit and %nn spellings)"""
+    n = rng.randint(6, 8)
+    children = {i: [i + 1] for i in range(n - 1)}
+    children[n - 1] = []
+    names = {i: 'M' for i in range(n)}
+    if rng.random() < 0.5:
+        names[0] = 'T'
+    orders = {(i, i + 1): 1 for i in range(n - 1)}
+    u = rng.randint(3, n - 3)
+    w = rng.randint(u + 2, n - 1)
+    rings = [(u, w, 1)]
+    if rng.random() < 0.3 and w + 2 <= n - 1:
+        rings.append((w, rng.randint(w + 2, n - 1), 1))      # a third use of the index
+    real = list(range(n))
+    m_children = {k: list(v) for k, v in children.items()}
+    m_orders, m_rings, m_names, m_root = dict(orders), list(rings), dict(names), 0
+    v = n
+    variant = rng.choice(['real', 'vroot', 'vleaf'])
+    if variant == 'real':
+        m_rings.insert(0, (0, rng.randint(2, u - 1), 0))
+    elif variant == 'vroot':
+        m_children[v] = [0]
+        m_orders[(v, 0)] = 0
+        m_root = v
+        m_rings.insert(0, (v, rng.randint(1, u - 1), 0))
+        m_names[v] = 'V1'
+    else:
+        p = rng.randint(1, u - 2) if u >= 3 else 1
+        m_children[p].insert(0, v)
+        m_children[v] = []
+        m_orders[(p, v)] = 0
+        m_rings.insert(0, (rng.randint(0, p - 1), v, 0))
+        m_names[v] = 'V1'
+    o_new, o_ch, o_od, o_rg, o_nm = canon(0, children, orders, rings, names)
+    m_new, m_ch, m_od, m_rg, m_nm = canon(m_root, m_children, m_orders, m_rings, m_names)
+    try:
+        o_text = '{' + gens.render_base(rng, o_nm, o_ch, o_od, o_rg) + '}'
+        m_text = '{' + gens.render_base(rng, m_nm, m_ch, m_od, m_rg) + '}'
+    except (IndexError, KeyError):
+        return None
+    if rng.random() < 0.35:
+        o_text, m_text = pct_markers(o_text), pct_markers(m_text)
+    aa = rng.random() < 0.6
+    block = '.{#M=[$]C([$])[$],#T=[$]O}' if aa else '.{#M=[$][#X]([$])[#Y][$],#T=[$][#P]}'
+    return {'kind': 0, 'orig': o_text + block, 'modf': m_text + block, 'rho': sorted([o_new[x], m_new[x]] for x in real), 'aa': aa,
+            'levels': 1, 'legacy': rng.random() < 0.6, 'ops': ['ring-index-reused:' + variant],
+            'want_o': [o_nm, sorted([sorted(k), o] for k, o in intended_edges(o_ch, o_od, o_rg).items())],
+            'want_m': [m_nm, sorted([sorted(k), o] for k, o in intended_edges(m_ch, m_od, m_rg).items())]}
+
+
 def pct_markers(text):
     """write every one-digit ring marker d as the two-digit marker %1d"""
     out, depth = '', 0
@@ -264,6 +317,7 @@ class C11(RS.StepProp):
         fr = '.{#A=[$]CC[$],#B=[$]OC}'
         cg = '.{#A=[$][#X][#Y][$],#B=[$][#P]}'
         ml = '.{#P=[$][#A][#B][$],#Q=[$][#B][#A][$]}.{#A=[$]CC[$],#B=[$]O[$]}'
+        mt = '.{#M=[$]C([$])[$],#T=[$]O}'
         return [
             {'kind': 0, 'orig': '{[#A][#B]}' + fr, 'modf': '{[#V].[#A][#B]}' + fr, 'rho': [[0, 1], [1, 2]], 'aa': True, 'legacy': True},
             {'kind': 0, 'orig': '{[#A][#B]}' + fr, 'modf': '{[#A][#B].[#V]}' + fr, 'rho': [[0, 0], [1, 1]], 'aa': True, 'legacy': True},
@@ -283,6 +337,13 @@ class C11(RS.StepProp):
              'rho': [[0, 0], [1, 2], [2, 3]], 'aa': True, 'legacy': True, 'ctor': 'graph_reused'},
             {'kind': 0, 'orig': '{[#A].[#B]}' + cg, 'modf': '{[#A].[#V].[#B]}' + cg, 'rho': [[0, 0], [1, 2]], 'aa': False, 'legacy': True, 'ctor': 'graph_reused'},
             {'kind': 0, 'orig': '{[#P][#Q]}' + ml, 'modf': '{[#P].([#V])[#Q]}' + ml, 'rho': [[0, 0], [1, 2]], 'aa': True, 'legacy': True, 'level': 0, 'ctor': 'graph_reused'},
+            # a ring index used by a zero-order ring bond is used again by a later ordinary ring (seed C11-8)
+            {'kind': 0, 'orig': '{[#T][#M][#M][#M]1[#M][#M]1}' + mt, 'modf': '{[#T].1[#M][#M]1[#M]1[#M][#M]1}' + mt,
+             'rho': [[k, k] for k in range(6)], 'aa': True, 'legacy': True},
+            {'kind': 0, 'orig': '{[#T][#M][#M][#M]1[#M][#M]1}' + mt, 'modf': '{[#V].1.[#T][#M]1[#M][#M]1[#M][#M]1}' + mt,
+             'rho': [[k, k + 1] for k in range(6)], 'aa': True, 'legacy': True},
+            {'kind': 0, 'orig': '{[#T][#M][#M][#M]%10[#M][#M]%10}' + mt, 'modf': '{[#T].%10[#M][#M]%10[#M]%10[#M][#M]%10}' + mt,
+             'rho': [[k, k] for k in range(6)], 'aa': True, 'legacy': True},
             {'kind': 1, 'orig': '{[#A][#B]}' + fr, 'modf': '{[#V][#A][#B]}' + fr, 'rho': [[0, 1], [1, 2]], 'aa': True, 'legacy': True},
             {'kind': 1, 'orig': '{[#A][#B]}' + cg, 'modf': '{[#A][#B]=[#V]}' + cg, 'rho': [[0, 0], [1, 1]], 'aa': False, 'legacy': True},
             {'kind': 1, 'orig': '{[#A][#B]}' + cg, 'modf': '{[#A].[#V][#B]}' + cg, 'rho': [[0, 0], [1, 2]], 'aa': False, 'legacy': True},
@@ -295,7 +356,7 @@ class C11(RS.StepProp):
         rng = ctx.rng
         out = []
         while len(out) < n:
-            c = rand_pair(rng, reject=rng.random() < 0.12)
+            c = rand_reuse_pair(rng) if rng.random() < 0.15 else rand_pair(rng, reject=rng.random() < 0.12)
             if c is not None:
                 r = rng.random()
                 if r < 0.25:
